@@ -140,6 +140,7 @@ class Scaler(Transformer):
 
         """
         self._verify_input(X, "X")
+        dims_in = self._dims_per_variable(X)
 
         params = self.get_params()
 
@@ -151,7 +152,21 @@ class Scaler(Transformer):
             X = X * self.coslat_weights_
 
         X = X * self.weights_
+
+        # The scaling parameters must not broadcast a dimension into the data that
+        # the data itself does not have (e.g. a feature dimension that was dropped)
+        dims_out = self._dims_per_variable(X)
+        if any(dims != dims_in.get(name) for name, dims in dims_out.items()):
+            raise ValueError(
+                "Data to be transformed has different dimensions than the data used to fit."
+            )
         return X
+
+    @staticmethod
+    def _dims_per_variable(X: DataVarBound) -> dict:
+        if isinstance(X, xr.Dataset):
+            return {name: set(var.dims) for name, var in X.data_vars.items()}
+        return {None: set(X.dims)}
 
     def fit_transform(
         self,
